@@ -53,6 +53,10 @@ func GenProgram(b Bias) *rapid.Generator[Program] {
 			LateGates: rapid.IntRange(0, 3).Draw(t, "lateGates") == 0,
 			CtxFlavor: rapid.SampledFrom([]int{CtxPlain, CtxPlain, CtxCause, CtxChild, CtxForeign}).Draw(t, "ctxFlavor"),
 		}
+		if b.Cancel {
+			p.EarlyWaiter = rapid.IntRange(0, 4).Draw(t, "earlyWaiter") == 0
+			p.Abrupt = rapid.IntRange(0, 9).Draw(t, "abrupt") == 0
+		}
 		if rapid.IntRange(0, 99).Draw(t, "useDeadline") < b.Deadline {
 			p.Deadline = rapid.SampledFrom([]time.Duration{50 * time.Millisecond, 500 * time.Millisecond, 3 * time.Second, 30 * time.Second}).Draw(t, "deadline")
 		}
